@@ -267,4 +267,70 @@ theorem bcImm8_target {S P : Int} {data out : List Nat} (hlen : data.length = 2)
   simp only [show 9 - 1 = 8 from rfl] at this
   rw [this]; omega
 
+
+/-! ## rvc linker relaxation: `can_shrink` / `do_shrink` of `cb_imm11`, `cbl_imm11` -/
+
+/-- EXACT characterisation of the relaxation test: it says yes iff both addresses are even and the displacement
+    fits the signed 12-bit range of `C.J`/`C.JAL` (and raises AssertionError on an odd address) -/
+theorem canShrink_true_iff (S P : Int) :
+    Rvc.canShrink S P = .ok true ↔ (S % 2 = 0 ∧ P % 2 = 0 ∧ Spec.Bits.fitsS 12 (S - P)) := by
+  unfold Rvc.canShrink Rvc.isinsrange Spec.Bits.fitsS
+  by_cases hS : S % 2 = 0
+  · by_cases hP : P % 2 = 0
+    · have a1 : Model.Reloc.assert (S % 2 == 0) = .ok () := by simp [Model.Reloc.assert, hS]
+      have a2 : Model.Reloc.assert (P % 2 == 0) = .ok () := by simp [Model.Reloc.assert, hP]
+      simp only [a1, a2, bind, Except.bind, pure, Except.pure, Except.ok.injEq, decide_eq_true_eq]
+      norm_num
+      omega
+    · have a1 : Model.Reloc.assert (S % 2 == 0) = .ok () := by simp [Model.Reloc.assert, hS]
+      have a2 : Model.Reloc.assert (P % 2 == 0) = .error .AssertionError := by simp [Model.Reloc.assert, hP]
+      simp only [a1, a2, bind, Except.bind]
+      constructor
+      · intro h; cases h
+      · intro h; exact absurd h.2.1 hP
+  · have a1 : Model.Reloc.assert (S % 2 == 0) = .error .AssertionError := by simp [Model.Reloc.assert, hS]
+    simp only [a1, bind, Except.bind]
+    constructor
+    · intro h; cases h
+    · intro h; exact absurd h.1 hS
+
+theorem bcImm11_accepts {S P : Int} {data : List Nat} (hlen : data.length = 2) (hb : Bytes data)
+    (hS : S % 2 = 0) (hP : P % 2 = 0) (h1 : -(2 ^ 10) ≤ (S - P) / 2) (h2 : (S - P) / 2 < 2 ^ 11) :
+    ∃ out, Rvc.bcImm11 S data P = .ok out := by
+  unfold Rvc.bcImm11
+  have a1 : Model.Reloc.assert (S % 2 == 0) = .ok () := by simp [Model.Reloc.assert, hS]
+  have a2 : Model.Reloc.assert (P % 2 == 0) = .ok () := by simp [Model.Reloc.assert, hP]
+  simp only [a1, a2, bind, Except.bind]
+  rw [wrapNegative_of (by simpa using h1) h2]
+  simp only
+  exact ⟨_, coolMapping_eq _ hlen hb⟩
+
+theorem doShrink_shape {opc : Nat} {S P : Int} {data d2 : List Nat} (hlen : data.length = 4) (hb : Bytes data)
+    (hopc : opc < 8) (h : Rvc.doShrink opc S data P = .ok d2) : d2.length = 2 ∧ Bytes d2 := by
+  unfold Rvc.doShrink at h
+  obtain ⟨_, _, h⟩ := bind_ok h
+  obtain ⟨_, _, h⟩ := bind_ok h
+  obtain ⟨hd, hw⟩ := data4 hlen hb
+  rw [hd, bvSet_word 4 _ 4 0 2 _ hw (by decide) (by decide) (by decide) (by norm_num)] at h
+  simp only [bind, Except.bind] at h
+  rw [bvSet_word 4 _ 4 13 16 _ (writeBits_lt (stored_lt _ _) (by decide)) (by decide) (by decide) (by decide)
+    (by norm_num; omega)] at h
+  simp only [pure, Except.pure, Except.ok.injEq] at h
+  subst h
+  refine ⟨by simp [length_toLE], fun x hx => ?_⟩
+  exact bytes_toLE _ _ x (List.mem_of_mem_take hx)
+
+/-- RELAXATION IS SAFE AS IT IS: whenever `can_shrink` says yes, the shrunk 16-bit jump relocated with `bc_imm11`
+    at the same addresses is accepted and designates exactly `S` -/
+theorem shrink_resolves {opc : Nat} {S P : Int} {data d2 : List Nat} (hlen : data.length = 4) (hb : Bytes data)
+    (hopc : opc < 8) (hcan : Rvc.canShrink S P = .ok true) (hsh : Rvc.doShrink opc S data P = .ok d2) :
+    ∃ out, Rvc.bcImm11 S d2 P = .ok out ∧ P + rvcJOffset (wordLE out) = S := by
+  obtain ⟨hS, hP, hfit⟩ := (canShrink_true_iff S P).mp hcan
+  obtain ⟨hl2, hb2⟩ := doShrink_shape hlen hb hopc hsh
+  have hf := hfit
+  unfold Spec.Bits.fitsS at hf
+  norm_num at hf
+  obtain ⟨out, hout⟩ := bcImm11_accepts hl2 hb2 hS hP (by norm_num; omega) (by norm_num; omega)
+  exact ⟨out, hout, bcImm11_target hl2 hb2 hout hfit⟩
+
 end Proofs.Reloc
